@@ -1,4 +1,5 @@
 import Swim.Util.Parse
+import Swim.Model.Lifecycle
 /-! Driver side of the simulator verdict lines (C04 C05 C20): the harness reports what it observed;
 the classification rules live here. -/
 namespace Swim.Drv.Sim
@@ -16,9 +17,15 @@ def invBad (fs : List (String × String)) : Option String :=
   let inv := getD fs "inv" "ok"
   if inv == "ok" || inv == "enc" then none else some s!"cluster-invariant:{inv}"
 
+/-- a scenario in which virtual time could not advance: some goroutine waits for a lock that is never
+released (a deadlock inside the library) -/
+def stuck (fs : List (String × String)) : String :=
+  s!"DISAGREE BAD:scenario-made-no-progress-for-{getD fs "after" "?"}-of-real-time(virtual-time-cannot-advance:a-goroutine-waits-for-a-lock) nt=0 br=stuck "
+
 def handleC04 (kind : String) (fs : List (String × String)) : String :=
   match kind with
   | "leak" => leak fs
+  | "stuck" => stuck fs
   | "sim" => if (get fs "err").isSome then "PARSE create" else
       let bad := getD fs "bad" "-"
       let conv := getD fs "converged" "0" == "1"
@@ -33,6 +40,7 @@ def handleC04 (kind : String) (fs : List (String × String)) : String :=
 def handleC05 (kind : String) (fs : List (String × String)) : String :=
   match kind with
   | "leak" => leak fs
+  | "stuck" => stuck fs
   | "sim" => if (get fs "err").isSome then "PARSE create" else
       let connected := getD fs "connected" "0" == "1"
       let cls := getD fs "class" "?"
@@ -47,12 +55,49 @@ def handleC05 (kind : String) (fs : List (String × String)) : String :=
         s!"heal-{if connected then cls else "disconnected"}" s!"settled={getD fs "settledms" "-1"}ms"
   | _ => "PARSE kind"
 
+open Swim.Lifecycle in
+def parseStage : String → Option Stage
+  | "joined" => some .joined | "left" => some .left | "leftReaped" => some .leftReaped
+  | "shutdown" => some .shutdown | "leftShutdown" => some .leftShutdown | _ => none
+
+open Swim.Lifecycle in
+def parseCall : String → Option Call
+  | "Members" => some .members | "NumMembers" => some .numMembers | "LocalNode" => some .localNode
+  | "UpdateNode" => some .updateNode | "SendBestEffort" => some .sendBestEffort | "SendReliable" => some .sendReliable
+  | "Ping" => some .ping | "GetHealthScore" => some .healthScore | "Join" => some .join | "Leave" => some .leave
+  | "Shutdown" => some .shutdownC | "ProtocolVersion" => some .protocolVersion | _ => none
+
+/-- the stage probes of the simulator against the stage table of the model: `stage:Call=result` -/
+def tableMismatch (tb : String) : Option String := Id.run do
+  if tb == "-" then return none
+  for e in tb.splitOn "," do
+    match e.splitOn ":" with
+    | [st, cr] =>
+      match cr.splitOn "=" with
+      | [c, res] =>
+        match parseStage st, parseCall c with
+        | some s, some cl =>
+          let isErr := res == "err"
+          let bad := res.startsWith "PANIC" || res == "BLOCKED"
+          match Swim.Lifecycle.outcome s cl with
+          | .ok => if isErr || bad then return some s!"{st}:{c}={res}:model=ok"
+          | .error => if !isErr then return some s!"{st}:{c}={res}:model=error"
+          | .okOrError => if bad then return some s!"{st}:{c}={res}:model=ok-or-error"
+          | _ => pure ()
+        | _, _ => return some s!"unparsed:{e}"
+      | _ => return some s!"unparsed:{e}"
+    | _ => return some s!"unparsed:{e}"
+  return none
+
 def handleC20 (kind : String) (fs : List (String × String)) : String :=
   match kind with
   | "leak" => leak fs
+  | "stuck" => stuck fs
   | "api" => if (get fs "err").isSome then "PARSE create" else
       let bad := getD fs "bad" "-"
-      verdict (bad == "-") (if bad == "-" then none else some bad) ((getNat fs "calls").getD 0 ≥ 10) s!"api-{getD fs "stages" "?"}" ""
+      let mm := tableMismatch (getD fs "table" "-")
+      verdict (bad == "-" && mm.isNone) (if bad == "-" then none else some bad) ((getNat fs "calls").getD 0 ≥ 10)
+        s!"api-{getD fs "stages" "?"}" (match mm with | some m => s!"stage-table:{m}" | none => "")
   | _ => "PARSE kind"
 
 end Swim.Drv.Sim
